@@ -822,6 +822,12 @@ func (m *Mirror) handleFuturePrevoteProofs(
 		return tmconsensus.HandleVoteProofsNoNewSignatures
 	case tmi.AddVoteInternalError:
 		return tmconsensus.HandleVoteProofsInternalError
+	case tmi.AddVoteConflict:
+		// The round stopped being a future round while we were preparing the request.
+		// Start over; the view lookup finds the round's view now.
+		return m.HandlePrevoteProofs(ctx, p)
+	case tmi.AddVoteOutOfDate:
+		return tmconsensus.HandleVoteProofsRoundTooOld
 	default:
 		panic(fmt.Errorf(
 			"BUG: received unexpected AddVoteResult %d", result,
@@ -1191,6 +1197,12 @@ func (m *Mirror) handleFuturePrecommitProofs(
 		return tmconsensus.HandleVoteProofsNoNewSignatures
 	case tmi.AddVoteInternalError:
 		return tmconsensus.HandleVoteProofsInternalError
+	case tmi.AddVoteConflict:
+		// The round stopped being a future round while we were preparing the request.
+		// Start over; the view lookup finds the round's view now.
+		return m.handlePrecommitProofs(ctx, p, "retry after future round became current")
+	case tmi.AddVoteOutOfDate:
+		return tmconsensus.HandleVoteProofsRoundTooOld
 	default:
 		panic(fmt.Errorf(
 			"BUG: received unexpected AddVoteResult %d", result,
